@@ -63,13 +63,18 @@ def run(chk):
     sa_stmt = stmt_of(f, skip_append)
     sa_node = cfg.node_of.get(id(sa_stmt))
     guard_if = None
+    loops_around = [l for l in ast.walk(f) if isinstance(l, (ast.For, ast.While)) and any(x is sa_stmt for x in ast.walk(l))]
+    inner_loop = min(loops_around, key=lambda l: sum(1 for _ in ast.walk(l))) if loops_around else f
+    in_loop = {id(x) for x in ast.walk(inner_loop)}
     for n, dct in G.nodes(data=True):
         st = dct.get('stmt')
-        if isinstance(st, ast.If) and 'isfile' in ast.unparse(st.test):
+        if isinstance(st, ast.If) and id(st) in in_loop and 'isfile' in ast.unparse(st.test):
             if nx.has_path(G, n, sa_node) and (guard_if is None or st.lineno > guard_if[1].lineno) and st.lineno < sa_stmt.lineno:
                 guard_if = (n, st)
     if guard_if is None:
-        raise AnalysisError('no isfile() guard before the skip append')
+        chk.ob('R18.2', 'a case is put on the skip list only when its success marker exists (guard dominance)', False,
+               'cases_to_skip.append(...) is not guarded by any os.path.isfile(<marker>) test: unfinished cases would be skipped on restart', m.where(sa_stmt), method='CFG edge-removal reachability')
+        return
     gname = [x.id for x in ast.walk(guard_if[1].test) if isinstance(x, ast.Name) and x.id in assigns]
     for nm in gname:
         for a in assigns[nm]:
@@ -112,8 +117,12 @@ def run(chk):
                         out.append(n)
         return sorted(set(out))
     mk = writers(marker); rs = writers(result_file)
-    if not mk or not rs:
-        raise AnalysisError(f'worker {worker.name}: writer of the marker ({len(mk)}) or of the result file ({len(rs)}) not found')
+    if not mk:
+        raise AnalysisError(f'worker {worker.name}: writer of the marker {marker} not found')
+    if not rs:
+        chk.ob('R18.1', f'every path to the write of {marker} has already written {result_file} (marker last)', False,
+               f'the worker writes {marker} but never writes {result_file}, which the restart path loads for every skipped case', m.where(WG.nodes[mk[0]]['stmt']), key='R18.1|marker-after-result', method='CFG dominance')
+        return
     idom = wcfg.dominators()
     for mnode in mk:
         dom = any(wcfg.dominates(r, mnode, idom) for r in rs)
